@@ -418,6 +418,20 @@ def _fold_message_loops(ctx: Ctx):
             except Raised as e:
                 raise AnalysisError(f"{P_CLASSES}: the body of the loop over {which} raises {e.exc_name} when folded for "
                                     f"{raw['method']}")
+            except AnalysisError as e:
+                bound = set(env) | set(it.globals)
+                for st_ in ast.walk(loop):
+                    if isinstance(st_, ast.Name) and isinstance(st_.ctx, ast.Store):
+                        bound.add(st_.id)
+                free = sorted({n_.id for n_ in ast.walk(loop) if isinstance(n_, ast.Name) and isinstance(n_.ctx, ast.Load)}
+                              - bound - {"True", "False", "None"} - set(dir(__builtins__)))
+                free = [f_ for f_ in free if f"'{f_}'" in str(e)]
+                if free:
+                    ctx.fail("direction-of-own-message", f"generate_all_classes:{which}:reads:{','.join(free)}",
+                             f"the body of the loop over {which} reads {free}, which that loop does not bind (left over from an "
+                             "earlier loop)", P_CLASSES, loop.lineno)
+                    break
+                raise
             n += 1
             emitted = []
             for a, k in calls:
